@@ -215,6 +215,10 @@ func (s *genState) genProblem(req M) {
 			typ = "cost"
 		}
 		c := M{"id": id, "type": typ}
+		if typ == "gain" && s.method != "choquetIntegral" && g.Chance(1, 5) { // Choquet insists on an explicit "gain"
+			delete(c, "type") // `gain` is the documented default
+			s.label("defaultType")
+		}
 		mn, mx := math.Inf(1), math.Inf(-1)
 		for _, a := range alts {
 			v := genValue(g, mode)
@@ -521,9 +525,12 @@ func (s *genState) genMethodParams(req M) M {
 		s.superfluous(ec, func() interface{} { return M{"k": 1.0} })
 		mp["electreCriteria"] = ec
 		if g.Chance(1, 2) {
-			if g.Chance(1, 2) {
+			switch g.Int(0, 5) {
+			case 0: // boundary functions of the documented domain: identically zero, constant, zero at credibility 1
+				mp["electreDistillation"] = []interface{}{M{"a": 0.0, "b": 0.0}, M{}, M{"a": 0.0, "b": 0.125}, M{"a": -0.25, "b": 0.25}, M{"b": 0.25}}[g.Int(0, 4)]
+			case 1, 2:
 				mp["electreDistillation"] = M{"a": -float64(g.Int(0, 2)) / 8, "b": float64(g.Int(2, 4)) / 8}
-			} else {
+			default:
 				b := g.Unif(0.05, 0.5)
 				a := -g.Unif(0, b)
 				mp["electreDistillation"] = M{"a": a, "b": b}
